@@ -161,9 +161,11 @@ static void Array_Push(var self, var obj);
 static void Array_Assign(var self, var obj) {
   struct Array* a = self;
 
+  var type = implements_method(obj, Iter, iter_type) ? iter_type(obj) : Ref;
+  
   Array_Clear(self);
   
-  a->type = implements_method(obj, Iter, iter_type) ? iter_type(obj) : Ref;
+  a->type = type;
   a->tsize = Array_Size_Round(size(a->type));
   a->nitems = 0;
   a->nslots = 0;
